@@ -278,8 +278,8 @@ func (s *service) getValidators(txes ...dbft.Transaction[util.Uint256]) []dbft.P
   [("pkg/core/interop/contract/call.go", [("""	if !ctx.GetCallFlags().Has(callflag.ReadStates | callflag.AllowCall) {""", """	if fs := ctx.GetCallFlags(); !fs.Has(callflag.ReadStates) || !fs.Has(callflag.AllowCall) {""")])]),
  ("changeview-guard-swapped", ["C17", "C19"], "changeView.DecodeBinary: operands of the reason test swapped",
   [("pkg/consensus/change_view.go", [("""	if c.reason == dbft.CVTxInvalid || c.reason == dbft.CVTxRejectedByPolicy {
-		r.ReadArray(&c.rejectedHashes)""", """	if dbft.CVTxRejectedByPolicy == c.reason || c.reason == dbft.CVTxInvalid {
-		r.ReadArray(&c.rejectedHashes)""")])]),
+		r.ReadArray(&c.rejectedHashes, block.MaxTransactionsPerBlock)""", """	if dbft.CVTxRejectedByPolicy == c.reason || c.reason == dbft.CVTxInvalid {
+		r.ReadArray(&c.rejectedHashes, block.MaxTransactionsPerBlock)""")])]),
  ("recovery-context-assigned-after", ["C17", "C19"], "recoveryMessage.DecodeBinary: the nested message is created with new and the context assigned afterwards",
   [("pkg/consensus/recovery_message.go", [("""		m.prepareRequest = &message{stateRootEnabled: m.stateRootEnabled}""", """		m.prepareRequest = new(message)
 		m.prepareRequest.stateRootEnabled = m.stateRootEnabled""")])]),
@@ -308,6 +308,139 @@ func (s *service) getValidators(txes ...dbft.Transaction[util.Uint256]) []dbft.P
  ("flush-height-through-local", ["C11"], "AddMPTBatch: the flush height passes through a local",
   [("pkg/core/stateroot/module.go", [("""	mpt.Flush(index)""", """	h := index
 	mpt.Flush(h)""")])]),
+ # ---- session 3: variants for the rules of round 4 ----
+ ("recordkind-type-switch", ["C10", "C17", "C20"], "Trie.getFromStore refuses the child-only kinds with a type switch (one arm per kind) instead of the Type() comparison",
+  [("pkg/core/mpt/trie.go", [("""	if typ := n.Node.Type(); typ == HashT || typ == EmptyT {
+		// These are valid as children only, never as a stored node.
+		return nil, fmt.Errorf("unexpected node type %d in the storage", typ)
+	}
+
+	if t.mode.RC() {""", """	if _, isHash := n.Node.(*HashNode); isHash {
+		return nil, errors.New("unexpected hash node in the storage")
+	}
+	if _, isEmpty := n.Node.(EmptyNode); isEmpty {
+		return nil, errors.New("unexpected empty node in the storage")
+	}
+
+	if t.mode.RC() {""")])]),
+ ("stickyerror-early-return", ["C17", "C07"], "decodeBinaryNoSize: `if br.Err == nil && buf == nil` written as an early return followed by the plain test",
+  [("pkg/core/transaction/transaction.go", [("""	if br.Err == nil && buf == nil {
+		br.Err = t.createHash()
+	}""", """	if br.Err != nil {
+		return
+	}
+	if buf == nil {
+		br.Err = t.createHash()
+	}""")])]),
+ ("extnext-through-local", ["C10", "C03", "C11"], "putBatchIntoExtensionNoPrefix: the child placed under the new extension goes through a local",
+  [("pkg/core/mpt/batch.go", [("""		b.Children[key[0]] = t.newSubTrie(key[1:], next, false)""", """		child := next
+		b.Children[key[0]] = t.newSubTrie(key[1:], child, false)""")])]),
+ ("arraymax-through-local", ["C17"], "nef decoder: the token maximum passed through a local",
+  [("pkg/smartcontract/nef/nef.go", [("	r.ReadArray(&n.Tokens, MaxMethodTokens)", "	limit := MaxMethodTokens\n	r.ReadArray(&n.Tokens, limit)")])]),
+ ("decodedloop-limit-form", ["C17"], "ProofWithKey decoder: the count compared with a limit before the loop instead of the error test inside it",
+  [("pkg/neorpc/result/mpt.go", [("""	sz := r.ReadVarUint()
+	for range sz {
+		item := r.ReadVarBytes()
+		if r.Err != nil {
+			return
+		}
+		p.Proof = append(p.Proof, item)
+	}""", """	sz := r.ReadVarUint()
+	if sz > 1024 {
+		r.Err = base64.CorruptInputError(0)
+		return
+	}
+	for range sz {
+		p.Proof = append(p.Proof, r.ReadVarBytes())
+	}""")])]),
+ ("scopeless-mask-two-steps", ["C04", "C16"], "runtime.LoadScript: the flag mask applied in two statements",
+  [("pkg/core/interop/runtime/engine.go", [("	fs = ic.VM.Context().GetCallFlags() & callflag.ReadOnly & fs", "	fs &= callflag.ReadOnly\n	fs = ic.VM.Context().GetCallFlags() & fs")])]),
+ ("stagegate-restructured", ["C20"], "handleBlockCmd: the three cases written as early returns in another order",
+  [("pkg/network/server.go", [("""	if s.stateSync.IsActive() {
+		if !s.stateSync.NeedBlocks() {
+			// Headers or MPT data are not in sync yet, the module
+			// can't accept blocks (and doesn't know its height).
+			return nil
+		}
+		return s.bSyncQueue.Put(block)
+	}
+	return s.bQueue.Put(block)""", """	if !s.stateSync.IsActive() {
+		return s.bQueue.Put(block)
+	}
+	if s.stateSync.NeedBlocks() {
+		return s.bSyncQueue.Put(block)
+	}
+	return nil""")])]),
+ ("limitscale-explicit-if", ["C12"], "SetGasLimit: the clamp written as an if statement",
+  [("pkg/vm/vm.go", [("""		v.gasLimit = min(datoshi, math.MaxInt64/ExecFeeFactorMultiplier) * ExecFeeFactorMultiplier""", """		if datoshi > math.MaxInt64/ExecFeeFactorMultiplier {
+			datoshi = math.MaxInt64 / ExecFeeFactorMultiplier
+		}
+		v.gasLimit = datoshi * ExecFeeFactorMultiplier""")])]),
+ ("refshandover-rename", ["C12", "C13"], "RET arm: locals oldEstack/newEstack renamed",
+  [("pkg/vm/vm.go", [rn("oldEstack", "calleeStack"), rn("newEstack", "callerStack")])]),
+ ("multimap-append-through-local", ["C20"], "defineSyncStage: the per-key append goes through a local",
+  [("pkg/core/statesync/module.go", [("""					for hash, paths := range nChildrenPaths {
+						childrenPaths[hash] = append(childrenPaths[hash], paths...)
+					}""", """					for hash, paths := range nChildrenPaths {
+						known := childrenPaths[hash]
+						childrenPaths[hash] = append(known, paths...)
+					}""")])]),
+ ("exactlym-break-in-body", ["C19"], "getBlockWitness: the bound on emitted signatures written as a break in the loop body",
+  [("pkg/consensus/consensus.go", [("""	for i, j := 0, 0; i < len(pubs) && j < m; i++ {
+		if sig, ok := sigs[pubs[i]]; ok {
+			emit.Bytes(buf.BinWriter, sig)
+			j++
+		}
+	}""", """	j := 0
+	for i := range pubs {
+		if j >= m {
+			break
+		}
+		if sig, ok := sigs[pubs[i]]; ok {
+			emit.Bytes(buf.BinWriter, sig)
+			j++
+		}
+	}""")])]),
+ ("groups-through-local", ["C15"], "getContractGroups: the groups go through a local before they are returned",
+  [("pkg/core/interop/runtime/witness.go", [("	return manifest.Groups(cs.Manifest.Groups), nil", "	groups := manifest.Groups(cs.Manifest.Groups)\n	return groups, nil")])]),
+ ("serialize-clone-through-local", ["C17", "C01"], "Std.serialize: the clone goes through a local",
+  [("pkg/core/native/std.go", [("	return stackitem.NewByteArray(bytes.Clone(data)) // Serialization context can be reused.", "	own := bytes.Clone(data) // Serialization context can be reused.\n	return stackitem.NewByteArray(own)")])]),
+ ("gc-boundary-swapped", ["C11", "C10"], "stateroot GC: the height comparison written with swapped operands",
+  [("pkg/core/stateroot/module.go", [("			if h <= index {", "			if index >= h {")])]),
+ ("basefromstore-swapped", ["C11", "C10"], "updateRefCount: the zero test of the cached base written with swapped operands",
+  [("pkg/core/mpt/trie.go", [("""	cnt := node.initial
+	if cnt == 0 {""", """	cnt := node.initial
+	if 0 == cnt {""")])]),
+ ("modpow-nested-ifs", ["C13", "C12"], "MODPOW: the three-way condition of the sign correction written as nested ifs",
+  [("pkg/vm/vm.go", [("""			if base.Sign() < 0 && exponent.Bit(0) == 1 && res.Sign() != 0 {
+				absModulus := new(big.Int).Abs(modulus)
+				res.Sub(res, absModulus)
+			}""", """			if base.Sign() < 0 && exponent.Bit(0) == 1 {
+				if res.Sign() != 0 {
+					absModulus := new(big.Int).Abs(modulus)
+					res.Sub(res, absModulus)
+				}
+			}""")])]),
+ ("invocation-decode-literal", ["C17"], "ContractInvocation.UnmarshalJSON: the fields restored with one composite literal",
+  [("pkg/core/state/contract_invocation.go", [("""	ci.Method = aux.Method
+	ci.Hash = aux.Hash
+	ci.ArgumentsCount = aux.ArgumentsCount
+	ci.Truncated = aux.Truncated
+	ci.Arguments = args
+	ci.argumentsBytes = argBytes
+	return nil""", """	*ci = ContractInvocation{
+		Hash:           aux.Hash,
+		Method:         aux.Method,
+		Arguments:      args,
+		argumentsBytes: argBytes,
+		ArgumentsCount: aux.ArgumentsCount,
+		Truncated:      aux.Truncated,
+	}
+	return nil""")])]),
+ ("encodepure-rename", ["C17"], "AppExecResult encoder: the local holding the marked state renamed",
+  [("pkg/core/state/notification_event.go", [rn("vmState", "wireState")])]),
+ ("threshold-rename", ["C19", "C06"], "newBlockFromContext: the validators local renamed",
+  [("pkg/consensus/consensus.go", [("	var validators = s.Chain.ComputeNextBlockValidators()\n	script, err := smartcontract.CreateDefaultMultiSigRedeemScript(validators)", "	var nextVals = s.Chain.ComputeNextBlockValidators()\n	script, err := smartcontract.CreateDefaultMultiSigRedeemScript(nextVals)")])]),
 ]
 
 out = "/verif/benign"
